@@ -554,7 +554,7 @@ def obs_term(ob, bits):
     return "BExc 98%N"
 
 
-def analyse(ops, out, meta=None):
+def analyse(ops, out, meta=None, build_term=True):
     """Walk one sequence with the reference schedulers.  Returns dict:
        fail = None | (rule, op index, message)      first failure of the property on the implementation
        term = Coq term (mkCase ...)
@@ -678,8 +678,9 @@ def analyse(ops, out, meta=None):
                     bad("lost-event", k, "HeapScheduler: op %d: live event %s of handler %d is not in the heap array"
                         % (k, tstr(t), hd))
                     break
-            steps.append("(FDump %s, BSkip, BSkip)" % C.coq_list(
-                ["(%d, %d, %d%%N, %d%%N)" % (e[0], e[1], e[2], e[3]) for e in ent]))
+            if build_term:
+                steps.append("(FDump %s, BSkip, BSkip)" % C.coq_list(
+                    ["(%d, %d, %d%%N, %d%%N)" % (e[0], e[1], e[2], e[3]) for e in ent]))
             continue
         if len(o) != 2 or not isinstance(o[0], list) or not isinstance(o[1], list):
             bad("driver", k, "malformed observation for op %d: %r" % (k, o))
@@ -744,8 +745,108 @@ def analyse(ops, out, meta=None):
             bad("driver", k, "unknown op %r" % (op,))
             break
         steps.append("(%s, %s, %s)" % (fop, obs_term(oh, bh or (0, 0)), obs_term(ol, bl or (0, 0))))
-    return {"fail": state["fail"], "term": share_literals("mkCase " + C.coq_list(steps)), "stats": st}
+    return {"fail": state["fail"], "stats": st,
+            "term": share_literals("mkCase " + C.coq_list(steps)) if build_term else None}
 
+
+
+# ----------------------------------------------------------------------------------------------
+# "very large heap" stratum: tens of thousands of trashed far-future events pile up in the lazily
+# deleting C heap (stored entries cross 2^16, in thorough also 2^17: realloc growth 64 -> 131072 /
+# 262144 entries), interleaved with ordinary live events, then ordinary random operations and a drain.
+# Checked by the reference-scheduler oracle (and the heap-order / spare-slot / no-lost-event checks on
+# the dumped array) only: the list-based Coq model is not evaluated on these histories (an array of
+# 10^5 cells under vm_compute is out of reach); the Coq theorems are for unbounded sizes and the
+# model/implementation correspondence is exercised on the ordinary strata.
+LARGE_ORDINARY = [0, 1, 2, 3]
+LARGE_BULK = list(range(4, 12))
+
+
+def gen_large(rng, target):
+    g = SeqGen(rng, 12)
+    for h in LARGE_ORDINARY:
+        g.push((float(1 + h), rng.choice(RPOOL)), h)
+    g.get()
+    base = 2.0 ** 20
+    nb = 0
+    nxt = rng.randint(1500, 6000)
+    while nb < target:
+        h = LARGE_BULK[nb % len(LARGE_BULK)] if rng.random() < 0.9 else rng.choice(LARGE_BULK)
+        if g.rl.has(h):
+            g.trash(h)
+        g.push((base + float(rng.randrange(0, 4096)), rng.choice(RPOOL)), h)
+        nb += 1
+        nxt -= 1
+        if nxt <= 0:
+            nxt = rng.randint(1500, 6000)
+            el = g.get()[1]            # an ordinary live event fires, is trashed and re-created later
+            hd = el[2]
+            if hd is not None:
+                g.trash(hd)
+                if hd in LARGE_ORDINARY:
+                    g.push(g.time(finite=True), hd)
+    g.get()
+    g.dump(force=True)                 # the whole array (> 2^16 entries) goes to the oracle once
+    for h in LARGE_BULK[::2]:
+        if g.rl.has(h):
+            g.trash(h)
+    g.ndump = MAX_DUMPS                # no further full dumps during the ordinary tail
+    stream_protocol(g, g.n() + rng.randint(100, 300))
+    g.drain(200)                       # pops tens of thousands of dead entries through root()
+    g.get()
+    g.ndump = 0
+    g.dump(force=True)
+    return g.ops
+
+
+def run_large(ctx, seqs_override=None):
+    """Returns dict(stats) after reporting a violation if the oracle fails on a large sequence."""
+    if seqs_override is not None:
+        seqs = [list(x) for x in seqs_override]
+    else:
+        targets = [2 ** 16 + 200] * ctx.n(2, 4) + [2 ** 17 + 200] * ctx.n(0, 2)
+        seqs = [gen_large(ctx.rng, t) for t in targets]
+    t1 = time.time()
+    outs, metas, crashes, tdrv = run_impl(ctx, seqs, 1)
+    info = {"sequences": len(seqs), "ops": sum(len(x) for x in seqs), "max_stored_entries": 0,
+            "max_allocated_entries": 0, "gets": 0, "answered_heap": 0, "oracle_failures": 0,
+            "driver_crashes": len(crashes)}
+    fails = []
+    for i, ops in enumerate(seqs):
+        if outs[i] is None:
+            continue
+        res = analyse(ops, outs[i], metas[i], build_term=False)
+        m = metas[i] or {}
+        info["max_stored_entries"] = max(info["max_stored_entries"], m.get("max_entries", 0), res["stats"]["max_dump"])
+        info["max_allocated_entries"] = max(info["max_allocated_entries"], m.get("cap", 0))
+        info["gets"] += res["stats"]["gets"]
+        info["answered_heap"] += res["stats"]["answered_heap"]
+        if res["fail"]:
+            fails.append((i,) + res["fail"])
+    info["oracle_failures"] = len(fails)
+    info["wall_s"] = round(time.time() - t1, 2)
+    if crashes:
+        c = crashes[0]
+        C.violation(ctx, "large-crash", {"kind": "c06-large", "seqs": [seqs[j] for j in c["indices"]],
+                                         "message": "driver crashed on a very-large-heap sequence: " + c["error"][-800:]},
+                    "C06 fails on the implementation: driver crashed on a very-large-heap sequence", nofail=False)
+    if fails:
+        i, rule, k, msg = min(fails, key=lambda f: f[2])
+        # shrink: the prefix up to the failing operation (re-running 10^5-operation candidates through
+        # delta debugging is too slow); keep it only if it still fails
+        pre = seqs[i][:k + 1]
+        r, e = run_chunk(ctx, [pre], timeout=600)
+        shr, shr_msg = seqs[i], msg
+        if r is not None and r.get("out"):
+            f = analyse(pre, r["out"][0], r["meta"][0], build_term=False)["fail"]
+            if f:
+                shr, shr_msg = pre, f[2]
+        C.violation(ctx, "large", {"kind": "c06-large", "seqs": [shr], "stream": "large", "rule": rule,
+                                   "message": shr_msg, "original_length": len(seqs[i]), "n_failing": len(fails),
+                                   "failing_rules": sorted(set(x[1] for x in fails))},
+                    "C06 fails on the implementation (very large heap, %d operations): %s" % (len(shr), shr_msg[:300]),
+                    nofail=False)
+    return info
 
 BIGLIT = re.compile(r"(?<![\w%.])(\d{6,})(?![\d%])")
 
@@ -1026,7 +1127,7 @@ def cap_bucket(c):
     return str(c)
 
 
-def run(ctx, seqs_override=None):
+def run(ctx, seqs_override=None, large_override=None):
     C.build_scratch(ctx, exts=("heap",))
     broken = []
     nthm = 0
@@ -1041,6 +1142,8 @@ def run(ctx, seqs_override=None):
         ctx.notes.append("coq/Props/C06.v not present: property theorems not re-checked on this run "
                          "(correspondence and oracle only)")
 
+    if large_override is not None and seqs_override is None:
+        seqs_override = []
     if seqs_override is not None:
         seqs = [list(s) for s in seqs_override]
         streams = ["replay"] * len(seqs)
@@ -1138,6 +1241,15 @@ def run(ctx, seqs_override=None):
                 (mism_all if i in weak_bad else diag_all).append(tidx[i])
         t_coq += time.time() - t1
 
+    # very large heap stratum (reference-scheduler oracle only, see gen_large)
+    large = None
+    if large_override is not None:
+        large = run_large(ctx, large_override)
+    elif seqs_override is None:
+        large = run_large(ctx)
+    if large:
+        n_ops += large["ops"]
+
     # ------------------------------------------------------------------------------------------
     # verdicts
     if crashes_all:
@@ -1228,6 +1340,7 @@ def run(ctx, seqs_override=None):
             "cross_scheduler_agreement_checked": agg["agree_checked"],
             "list_trash_of_absent_handler": agg["code2"],
             "heap_array_dumps_compared": agg["dumps"],
+            "very_large_heap_stratum": large or "not run (replay)",
         },
         "samples": samples,
         "input_distribution": {"op_mix": opmix, "stream_mix": streammix, "length_histogram": lenhist,
@@ -1245,7 +1358,8 @@ def run(ctx, seqs_override=None):
                        "Model/Sched.v (strict: handler, bits, heap array at every dump; pass/fail: exception enum / "
                        "None / float-equal returned time); independent reference-scheduler oracle with exact "
                        "quotient-then-remainder comparison on every sequence, plus heap-order / spare-slot / "
-                       "no-lost-event checks on the heap array read through lib.entry"
+                       "no-lost-event checks on the heap array read through lib.entry; plus a very-large-heap "
+                       "stratum (stored entries beyond 2^16 / 2^17) checked by that oracle only, not in Coq"
                        % ("re-checked (%d theorems)" % nthm if nthm else "not present"),
         "trusted_base": TRUSTED,
     }, ASSUME)
@@ -1272,4 +1386,7 @@ ASSUME = [
 
 def replay(ctx, path):
     data = json.load(open(path))
-    run(ctx, seqs_override=data.get("seqs", []))
+    if data.get("kind") == "c06-large":
+        run(ctx, large_override=data.get("seqs", []))
+    else:
+        run(ctx, seqs_override=data.get("seqs", []))
